@@ -387,6 +387,11 @@ def c16() -> int:
     # draw makes it a charge candidate a few steps later, ranks busy s0 against empty s1 in the same ring of search cells
     # two nearly empty vehicles of different fleets searching for a plug from one search cell; what each may use lies at a different
     # ring depth of the search (anything the search remembers between calls changes what the next call returns)
+    # the same tiny world in fresh processes with different histories (nothing before / another simulation with the same request ids and
+    # the same / exchanged fares before): identical states after every step of every arrival schedule
+    from .diffprimer import c16_differential
+
+    c16_differential(c)
     # the charging queue with vehicles that joined in the same step and fewer plugs released than tied vehicles
     gfsx(c, fsx, ("hivemc.w_imm", "make_fifo", {}), ("hivemc.bundles", "c16", {}), K=3, H=6 if quick else 9)
     for swap in (False, True):
